@@ -1,0 +1,45 @@
+//go:build verif
+
+package safehtml
+
+import "github.com/google/safehtml/internal/safehtmlutil"
+
+// Verification hooks (build tag "verif" only): thin wrappers that let an external
+// harness call constant-only constructors and internal helpers with generated inputs.
+// They add no behaviour of their own.
+
+func VerifIdentifierFromConstant(v string) Identifier {
+	return IdentifierFromConstant(stringConstant(v))
+}
+
+func VerifIdentifierFromConstantPrefix(p, v string) Identifier {
+	return IdentifierFromConstantPrefix(stringConstant(p), v)
+}
+
+func VerifTrustedResourceURLFromConstant(u string) TrustedResourceURL {
+	return TrustedResourceURLFromConstant(stringConstant(u))
+}
+
+func VerifTrustedResourceURLFormatFromConstant(format string, args map[string]string) (TrustedResourceURL, error) {
+	return TrustedResourceURLFormatFromConstant(stringConstant(format), args)
+}
+
+func VerifScriptFromDataAndConstant(name string, data interface{}, script string) (Script, error) {
+	return ScriptFromDataAndConstant(stringConstant(name), data, stringConstant(script))
+}
+
+func VerifStyleFromConstant(s string) Style {
+	return StyleFromConstant(stringConstant(s))
+}
+
+func VerifQueryEscapeURL(s string) string { return safehtmlutil.QueryEscapeURL(s) }
+
+func VerifNormalizeURL(s string) string { return safehtmlutil.NormalizeURL(s) }
+
+func VerifIsSafeTrustedResourceURLPrefix(s string) bool {
+	return safehtmlutil.IsSafeTrustedResourceURLPrefix(s)
+}
+
+func VerifURLContainsDoubleDotSegment(s string) bool {
+	return safehtmlutil.URLContainsDoubleDotSegment(s)
+}
